@@ -3,7 +3,7 @@
    [run_case v p file] (C01/Driver.v) opens [file] like Minidump::read and requests the eleven
    modelled streams; fields carry Ok/Err/Panic/OutOfFuel, the ledger every Vec::with_capacity.
    Every loop of the model runs on fuel |file| + 1 ([fuel_of]). *)
-From RM Require Import C01.Model C01.Proofs C01.Driver C01.Final C01.Agree.
+From RM Require Import C01.Model C01.Proofs C01.Driver C01.Final C01.Agree C01.QModel C01.QProofs Gen.C01Sites C01.Sites C01.SitesCheck.
 Open Scope Z_scope.
 
 (* No modelled site panics, for any byte string, in debug and release builds (fixed code). *)
@@ -176,6 +176,51 @@ Theorem c01_print_sites_total : forall p w len, 0 <= len < T62 ->
 Proof. exact print_sites_total. Qed.
 Print Assumptions c01_print_sites_total.
 
+(* ---- round 4: the queries made on a parsed dump.
+   memory_range() of memory regions, memory-info entries, modules: the unchecked `- 1` after `checked_add` never traps
+   (the `size == 0` guard makes the sum >= 1), and a range that exists is non-empty and below 2^64 *)
+Theorem c01_memory_range_sound : forall p base size, 0 <= base -> 0 <= size ->
+  (forall t, memory_range p base size <> Pan t) /\ memory_range p base size <> NoFuel /\
+  forall lo hi, memory_range p base size = Ok (Some (lo, hi)) -> lo = base /\ hi = base + size - 1 /\ lo <= hi /\ hi < T64.
+Proof.
+  intros p base size Hb Hs. destruct (memory_range_rsat p base size Hb Hs) as (H1 & H2 & H3).
+  split; [exact H1|]. split; [exact H2|]. intros lo hi H. specialize (H3 _ H). cbn in H3. tauto.
+Qed.
+Print Assumptions c01_memory_range_sound.
+(* MinidumpThread::last_error: the address is teb + 13 * pointer width without wrapping, and the u32 read stays inside the region *)
+Theorem c01_last_error_in_bounds : forall e teb pw base region v, last_error e teb pw base region = Some v ->
+  teb + 13 * pw < T64 /\ base <= teb + 13 * pw /\ (teb + 13 * pw - base) + 4 <= blen region.
+Proof. exact last_error_in_bounds. Qed.
+Print Assumptions c01_last_error_in_bounds.
+(* MinidumpException::get_crash_address: `exception_information[1]` is inside the 15-entry array whatever number_parameters
+   says; the result fits the pointer width *)
+Theorem c01_crash_address_total : forall windows ptr32 code nparams addr info, blen info = 15 ->
+  0 <= addr < T64 -> Forall (fun x => 0 <= x < T64) info ->
+  (forall t, crash_address windows ptr32 code nparams addr info <> Pan t) /\ crash_address windows ptr32 code nparams addr info <> NoFuel /\
+  forall a, crash_address windows ptr32 code nparams addr info = Ok a -> 0 <= a < T64 /\ (ptr32 = true -> a < T32).
+Proof. exact crash_address_rsat. Qed.
+Print Assumptions c01_crash_address_total.
+(* read_debug_id, ELF arm: the padded build id always holds the 16 bytes of a GUID *)
+Theorem c01_elf_debug_id_reads : forall bid, 16 <= blen (pad_build_id bid) /\ elf_debug_id bid <> Some false.
+Proof. intros bid. split; [apply pad_build_id_len | apply elf_debug_id_reads]. Qed.
+Print Assumptions c01_elf_debug_id_reads.
+(* all four query fields of the correspondence run (RM RI CA TE), any byte string, both profiles *)
+Theorem c01_crash_queries_total : forall p file, wf_bytes file -> blen file < T62 ->
+  forall tag f, In (tag, f) (run_queries p file) -> (forall t, f <> FPan t) /\ f <> FNoFuel.
+Proof. exact run_queries_total. Qed.
+Print Assumptions c01_crash_queries_total.
+
+(* ---- round 4: every trap / loop / allocation / guard site of minidump/src and minidump-common/src found by
+   translate/c01_sites.py (Gen/C01Sites.v, regenerated from the source on every run) is a row of the reviewed table
+   C01/Sites.v with the same count and digest, and every row is classified: covered by one of the theorems of this file
+   (c01_cover_index below builds the tuple of exactly those proofs), safe for a stated reason, or searched by a named harness step *)
+Theorem c01_sites_pinned : scanned_groups = pins site_table.
+Proof. exact sites_pinned. Qed.
+Print Assumptions c01_sites_pinned.
+Theorem c01_sites_classified : forallb row_ok site_table = true.
+Proof. exact sites_classified. Qed.
+Print Assumptions c01_sites_classified.
+
 (* ---- the code before the fix commits: each statement is false, with a concrete file
    (corpus/C01/cases.txt replays the same bytes on the real code) *)
 (* F-C01a (object-info type 0x7777), F-C01c (number_parameters = 16), F-C01e (PPC context printed) *)
@@ -226,3 +271,21 @@ Example c01_nonvacuous_fixed_witnesses :
   In (10, FErr EStreamReadFailure) (o_fields (run_case Fixed Debug wit_d)) /\ o_ledger (run_case Fixed Debug wit_d) = [] /\
   In (11, FOk [0; 3]) (o_fields (run_case Fixed Debug wit_e_ppc)) /\ In (13, FOk []) (o_fields (run_case Fixed Debug wit_e_ppc)).
 Proof. exact wit_fixed_ok. Qed.
+
+(* the theorems a row of C01/Sites.v may name (SitesCheck.theorem_names), as one term: a name that does not exist fails here *)
+Definition c01_cover_index :=
+  (c01_no_panic, c01_terminates, c01_alloc_backed, c01_stream_list_total, c01_ex_stream_list_total, c01_memory64_total,
+   c01_handle_data_total, c01_location_slice_sound, c01_ensure_count_in_bound_sound, c01_strings_total, c01_utf16_in_bounds,
+   c01_header_total, c01_exception_print_total, c01_xstate_iter_total, c01_misc_info_total, c01_thread_contexts_print_total,
+   c01_memory_read_in_bounds, c01_linux_kv_bounded, c01_crashpad_info_total, c01_mac_crash_info_total, c01_fixed_streams_total,
+   c01_print_sites_total, c01_crash_queries_total, c01_memory_range_sound, c01_last_error_in_bounds, c01_crash_address_total,
+   c01_elf_debug_id_reads).
+Example c01_nonvacuous_queries :
+  memory_range Debug 18446744073709551599 16 = Ok (Some (18446744073709551599, 18446744073709551614)) /\
+  memory_range Debug 18446744073709551600 16 = Ok None /\ memory_range Debug 5 0 = Ok None /\
+  chk_sub Debug 64 PANIC_RANGE_SUB 0 1 = Panic PANIC_RANGE_SUB /\
+  last_error_addr 18446744073709551564 4 = None /\ last_error_addr 18446744073709551563 4 = Some 18446744073709551615 /\
+  crash_address true true EXC_ACCESS_VIOLATION 2 4198400 [0; 18446744073709551615; 0; 0; 0; 0; 0; 0; 0; 0; 0; 0; 0; 0; 0] = Ok 4294967295 /\
+  run_queries Debug nv_dump = [(29, FErr EStreamNotFound); (30, FErr EStreamNotFound); (31, FOk [16; 16; 4198400; 4198400]); (32, FOk [1; 1; 1; 1])] /\
+  (length site_table > 300)%nat /\ (count_cls is_covered > 80)%nat.
+Proof. vm_compute. repeat split; try reflexivity; apply Nat.leb_le; reflexivity. Qed.
